@@ -439,6 +439,12 @@ func decimalValueFromString(numStr string, fracDigRequired uint8) (n Number, err
 		s = s[:dx] + s[dx+1:]
 	}
 
+	// Zeros beyond the required fraction digits add no precision: "1.50"
+	// at one fraction digit is the number 1.5.
+	for fracDig > int(fracDigRequired) && s[len(s)-1] == '0' {
+		s = s[:len(s)-1]
+		fracDig--
+	}
 	if fracDig > int(fracDigRequired) {
 		return n, fmt.Errorf("%s has too much precision, expect <= %d fractional digits", s, fracDigRequired)
 	}
